@@ -44,7 +44,8 @@ Theorem C09_effect_survives_iff : forall body en m, wf_fl meff body = true ->
 Proof. exact effect_survives_iff. Qed.
 Print Assumptions C09_effect_survives_iff.
 
-(* the two guards are necessary: a native write outside ExecuteNativeAction survives the revert of its frame *)
+(* the two guards are necessary (a statement about the journal design, not about the current source): a native
+   write outside ExecuteNativeAction survives the revert of its frame — what finding C09-1 (fixed in 35e508a) was *)
 Theorem C09_unjournaled_write_refuted :
   wf_fl meff ex_unjournaled = false /\
   s_nat (fst (m_run_impl ex_unjournaled Return)) = [1] /\ s_nat (fst (m_run_spec ex_unjournaled Return)) = [].
@@ -66,11 +67,9 @@ Theorem C09_table_writes_journaled :
 Proof. exact table_writes_journaled. Qed.
 Print Assumptions C09_table_writes_journaled.
 
-(* ... read-only methods start no action and only read (but for the listed finding) ... *)
+(* ... read-only methods start no action and only read the live context ... *)
 Theorem C09_table_readonly_pure :
-  forallb (fun m => negb (pm_readonly m) ||
-                    (Z.eqb (pm_actions m) 0 &&
-                     (no_write (pm_steps m) || existsb (String.eqb (pm_name m)) known_unjournaled))) methods = true.
+  forallb (fun m => negb (pm_readonly m) || (Z.eqb (pm_actions m) 0 && no_write (pm_steps m))) methods = true.
 Proof. exact table_readonly_pure. Qed.
 Print Assumptions C09_table_readonly_pure.
 
